@@ -32,6 +32,173 @@ func c10Idents(n ast.Node) string {
 	return sb.String()
 }
 
+// c10Reach: fd and the same-package functions/methods it calls, followed to the given depth (harmless refactorings
+// move a loop or a computation into a helper)
+func c10Reach(files []*ast.File, fd *ast.FuncDecl, depth int) []*ast.FuncDecl {
+	if fd == nil {
+		return nil
+	}
+	out := []*ast.FuncDecl{fd}
+	seen := map[*ast.FuncDecl]bool{fd: true}
+	frontier := []*ast.FuncDecl{fd}
+	for d := 0; d < depth; d++ {
+		var next []*ast.FuncDecl
+		for _, f := range frontier {
+			ast.Inspect(f.Body, func(n ast.Node) bool {
+				ce, ok := n.(*ast.CallExpr)
+				if !ok {
+					return true
+				}
+				name := ""
+				switch x := ce.Fun.(type) {
+				case *ast.Ident:
+					name = x.Name
+				case *ast.SelectorExpr:
+					name = x.Sel.Name
+				}
+				if name == "" {
+					return true
+				}
+				for _, file := range files {
+					if file == nil {
+						continue
+					}
+					for _, dcl := range file.Decls {
+						if g, ok := dcl.(*ast.FuncDecl); ok && g.Name.Name == name && g.Body != nil && !seen[g] {
+							seen[g] = true
+							out = append(out, g)
+							next = append(next, g)
+						}
+					}
+				}
+				return true
+			})
+		}
+		frontier = next
+	}
+	return out
+}
+
+// c10ConstExpr: the value expression of the package-level constant `name` in one of the files (nil if there is none)
+func c10ConstExpr(files []*ast.File, name string) ast.Expr {
+	for _, file := range files {
+		if file == nil {
+			continue
+		}
+		for _, dcl := range file.Decls {
+			gd, ok := dcl.(*ast.GenDecl)
+			if !ok || gd.Tok != token.CONST {
+				continue
+			}
+			for _, sp := range gd.Specs {
+				if vs, ok := sp.(*ast.ValueSpec); ok {
+					for i, nm := range vs.Names {
+						if nm.Name == name && i < len(vs.Values) {
+							return vs.Values[i]
+						}
+					}
+				}
+			}
+		}
+	}
+	return nil
+}
+
+// c10Seconds: `N * time.Second` / `time.Second * N` / a package-level constant with such a value → N (-1 if not of that shape)
+func c10Seconds(files []*ast.File, e ast.Expr, depth int) int {
+	switch x := e.(type) {
+	case *ast.ParenExpr:
+		return c10Seconds(files, x.X, depth)
+	case *ast.Ident:
+		if depth > 0 {
+			if v := c10ConstExpr(files, x.Name); v != nil {
+				return c10Seconds(files, v, depth-1)
+			}
+		}
+	case *ast.BinaryExpr:
+		if x.Op == token.MUL {
+			for _, pr := range [][2]ast.Expr{{x.X, x.Y}, {x.Y, x.X}} {
+				if se, ok := pr[1].(*ast.SelectorExpr); ok && se.Sel.Name == "Second" {
+					switch v := pr[0].(type) {
+					case *ast.BasicLit:
+						n, err := strconv.Atoi(v.Value)
+						if err == nil {
+							return n
+						}
+					case *ast.Ident:
+						if c := c10ConstExpr(files, v.Name); c != nil && depth > 0 {
+							if bl, ok := c.(*ast.BasicLit); ok {
+								if n, err := strconv.Atoi(bl.Value); err == nil {
+									return n
+								}
+							}
+						}
+					}
+				}
+			}
+		}
+	}
+	return -1
+}
+
+// c10UnderLock: does position pos of fd's body lie inside the critical section that starts with the first `Lock()`? An
+// `Unlock()` before pos is harmless iff its path leaves the function (the next statement of its block is a `return`):
+// "one unlock per path". After pos there must be an `Unlock()` (or a deferred one).
+func c10UnderLock(fd *ast.FuncDecl, pos token.Pos) bool {
+	if fd == nil || fd.Body == nil || pos == 0 {
+		return false
+	}
+	var lockPos token.Pos
+	deferred, after, bad := false, false, false
+	isCall := func(st ast.Stmt, name string) (token.Pos, bool) {
+		es, ok := st.(*ast.ExprStmt)
+		if !ok {
+			return 0, false
+		}
+		ce, ok := es.X.(*ast.CallExpr)
+		if !ok {
+			return 0, false
+		}
+		se, ok := ce.Fun.(*ast.SelectorExpr)
+		return ce.Pos(), ok && se.Sel.Name == name
+	}
+	ast.Inspect(fd.Body, func(n ast.Node) bool {
+		switch x := n.(type) {
+		case *ast.DeferStmt:
+			if se, ok := x.Call.Fun.(*ast.SelectorExpr); ok && se.Sel.Name == "Unlock" {
+				deferred = true
+			}
+			return false
+		case *ast.BlockStmt:
+			for i, st := range x.List {
+				if p, ok := isCall(st, "Lock"); ok && (lockPos == 0 || p < lockPos) {
+					lockPos = p
+				}
+				if p, ok := isCall(st, "Unlock"); ok {
+					if p > pos {
+						after = true
+					} else {
+						// the path of this Unlock leaves the function: the rest of its block ends with a `return` and does not
+						// contain pos (anything in between — a log line — runs outside the lock, but it is not pos)
+						leaves := false
+						if rest := x.List[i+1:]; len(rest) > 0 {
+							_, leaves = rest[len(rest)-1].(*ast.ReturnStmt)
+							if rest[0].Pos() <= pos && pos < rest[len(rest)-1].End() {
+								leaves = false
+							}
+						}
+						if !leaves {
+							bad = true
+						}
+					}
+				}
+			}
+		}
+		return true
+	})
+	return lockPos != 0 && lockPos < pos && !bad && (after || deferred)
+}
+
 func c10CallsMethod(body ast.Node, sel string) (found bool, pos token.Pos) {
 	if body == nil {
 		return
@@ -113,26 +280,29 @@ func init() {
 		called, steps, handed := false, false, false
 		sif := parseFile("pkg/pipe/siterator.go")
 		if fd := funcDecl(sif, "siterator", "Get"); fd != nil {
-			ast.Inspect(fd.Body, func(n ast.Node) bool {
-				fs, ok := n.(*ast.ForStmt)
-				if !ok {
-					return true
-				}
-				ast.Inspect(fs, func(m ast.Node) bool {
-					if ce, ok := m.(*ast.CallExpr); ok {
-						if se, ok := ce.Fun.(*ast.SelectorExpr); ok {
-							if se.Sel.Name == "fltF" {
-								called = true
-							}
-							if se.Sel.Name == "Next" {
-								steps = true
+			// the loop may live in a same-package helper of Get
+			for _, g := range c10Reach([]*ast.File{sif}, fd, 2) {
+				ast.Inspect(g.Body, func(n ast.Node) bool {
+					fs, ok := n.(*ast.ForStmt)
+					if !ok {
+						return true
+					}
+					ast.Inspect(fs, func(m ast.Node) bool {
+						if ce, ok := m.(*ast.CallExpr); ok {
+							if se, ok := ce.Fun.(*ast.SelectorExpr); ok {
+								if se.Sel.Name == "fltF" {
+									called = true
+								}
+								if se.Sel.Name == "Next" {
+									steps = true
+								}
 							}
 						}
-					}
+						return true
+					})
 					return true
 				})
-				return true
-			})
+			}
 		} else {
 			problem("pipe.siterator.Get not found")
 		}
@@ -314,9 +484,15 @@ func init() {
 		if fd := funcDecl(ppf, "ppipe", "startWorker"); fd != nil {
 			ast.Inspect(fd.Body, func(n ast.Node) bool {
 				switch x := n.(type) {
-				case *ast.UnaryExpr:
-					if se, ok := x.X.(*ast.SelectorExpr); ok && x.Op == token.NOT && chargedField == "" {
-						chargedField = se.Sel.Name
+				case *ast.AssignStmt:
+					// the field startWorker sets to `true` when it starts a worker (its condition tests the same field, negated
+					// or — after De Morgan — plain)
+					if len(x.Lhs) == 1 && len(x.Rhs) == 1 && chargedField == "" {
+						if se, ok := x.Lhs[0].(*ast.SelectorExpr); ok {
+							if id, ok := x.Rhs[0].(*ast.Ident); ok && id.Name == "true" {
+								chargedField = se.Sel.Name
+							}
+						}
 					}
 				case *ast.CallExpr:
 					if se, ok := x.Fun.(*ast.SelectorExpr); ok && se.Sel.Name == "Less" && len(x.Args) == 1 {
@@ -346,29 +522,6 @@ func init() {
 			})
 			return pos
 		}
-		// first Lock() and last Unlock() of the function body (deferred Unlock: the end of the body)
-		lockSpan := func(fd *ast.FuncDecl) (lo, hi token.Pos) {
-			ast.Inspect(fd.Body, func(n ast.Node) bool {
-				switch x := n.(type) {
-				case *ast.DeferStmt:
-					if se, ok := x.Call.Fun.(*ast.SelectorExpr); ok && se.Sel.Name == "Unlock" {
-						hi = fd.Body.End()
-					}
-					return false
-				case *ast.CallExpr:
-					if se, ok := x.Fun.(*ast.SelectorExpr); ok {
-						if se.Sel.Name == "Lock" && lo == 0 {
-							lo = x.Pos()
-						}
-						if se.Sel.Name == "Unlock" && x.Pos() > hi {
-							hi = x.Pos()
-						}
-					}
-				}
-				return true
-			})
-			return
-		}
 		signOffFirst, recordFirst, underLock := false, false, false
 		wdFd, weFd := funcDecl(ppf, "ppipe", "workerDone"), funcDecl(ppf, "ppipe", "onWriteEvent")
 		if wdFd != nil && weFd != nil && chargedField != "" && lastKnownField != "" {
@@ -377,9 +530,7 @@ func init() {
 			a1, a2 := assignPos(wdFd.Body, chargedField, true), assignPos(weFd.Body, lastKnownField, false)
 			signOffFirst = a1 != 0 && swd != 0 && a1 < swd
 			recordFirst = a2 != 0 && swe != 0 && a2 < swe
-			l1, h1 := lockSpan(wdFd)
-			l2, h2 := lockSpan(weFd)
-			underLock = signOffFirst && recordFirst && l1 != 0 && l1 < a1 && swd < h1 && l2 != 0 && l2 < a2 && swe < h2
+			underLock = signOffFirst && recordFirst && c10UnderLock(wdFd, a1) && c10UnderLock(wdFd, swd) && c10UnderLock(weFd, a2) && c10UnderLock(weFd, swe)
 		} else {
 			problem("ppipe.workerDone / ppipe.onWriteEvent / the fields of startWorker's condition not found")
 		}
@@ -516,8 +667,7 @@ func init() {
 		saveUnderLock := false
 		if fd := funcDecl(ppf, "ppipe", "saveState"); fd != nil {
 			_, ps := c10CallsMethod(fd.Body, "savePipeInfo")
-			lo, hi := lockSpan(fd)
-			saveUnderLock = saveStatePersists && lo != 0 && lo < ps && ps < hi
+			saveUnderLock = saveStatePersists && c10UnderLock(fd, ps)
 		}
 		l.p("/-- … while it holds the pipe's lock (between `Lock()` and the last `Unlock()`): snapshots reach the file in the order they are taken -/")
 		l.p("def saveStateWritesFileUnderLock : Bool := %s", leanBool(saveUnderLock))
@@ -537,10 +687,9 @@ func init() {
 					return true
 				}
 				if se, ok := ce.Fun.(*ast.SelectorExpr); ok && se.Sel.Name == "WithTimeout" && len(ce.Args) == 2 {
-					if be, ok := ce.Args[1].(*ast.BinaryExpr); ok {
-						if bl, ok := be.X.(*ast.BasicLit); ok {
-							waitSec, _ = strconv.Atoi(bl.Value)
-						}
+					// `N*time.Second`, or a package-level constant of pkg/pipe with such a value
+					if v := c10Seconds([]*ast.File{wf, ppf, sf}, ce.Args[1], 2); v >= 0 {
+						waitSec = v
 					}
 				}
 				if se, ok := ce.Fun.(*ast.SelectorExpr); ok && se.Sel.Name == "Parse" {
